@@ -55,7 +55,9 @@ class _float(float):
     # There is no risk of accidentally equating ints and floats with different values, since the
     # hash equality is only a necessary, not a sufficient condition for equality.
     def __hash__(self):
-        return super().__hash__() + 1
+        # Not float.__hash__() + 1: that equals the hash of the int of the same
+        # value for -1.0 and -2.0 (hash(-1) is -2, and -1 is not a valid hash).
+        return hash((_float, float(self)))
 
 
 class _bool(int):
